@@ -573,6 +573,40 @@ pub fn run(sc: &Value) -> Vec<String> {
             cline(&mut out, &mut encs, "order", order_v(&x), Some(rt_text(&x, order_v)), Some(rt_json(&x, order_v)), Value::Null);
         }
     }
+    // the same sweep for the other numeric records: every field at every boundary value
+    for b in BIG.iter() {
+        let id = ids(&mut rng);
+        for x in [OrderUpdate::UpdatePrice { order_id: id, new_price: *b }, OrderUpdate::UpdateQuantity { order_id: id, new_quantity: *b },
+                  OrderUpdate::UpdatePriceAndQuantity { order_id: id, new_price: *b, new_quantity: *b },
+                  OrderUpdate::Replace { order_id: id, price: *b, quantity: *b, side: side(&mut rng) }] {
+            cline(&mut out, &mut encs, "update", update_v(&x), Some(rt_text(&x, update_v)), Some(rt_json(&x, update_v)), Value::Null);
+        }
+        let mut t = transaction(&mut rng);
+        t.price = *b;
+        t.quantity = *b;
+        t.timestamp = *b;
+        cline(&mut out, &mut encs, "tx", tx_v(&t), Some(rt_text(&t, tx_v)), Some(rt_json(&t, tx_v)), Value::Null);
+        let mut m = MatchResult::new(ids(&mut rng), *b);
+        m.remaining_quantity = *b;
+        m.transactions = TransactionList::from_vec(vec![t]);
+        cline(&mut out, &mut encs, "mres", mres_v(&m), Some(rt_text(&m, mres_v)), Some(rt_json(&m, mres_v)), Value::Null);
+        // statistics: all eight figures at b, and each figure alone at b with the others at 7
+        for which in 0..9 {
+            let st = PriceLevelStatistics::new();
+            let v = |k: usize| if which == 8 || which == k { *b } else { 7 };
+            st.orders_added.store(v(0) as usize, std::sync::atomic::Ordering::Relaxed);
+            st.orders_removed.store(v(1) as usize, std::sync::atomic::Ordering::Relaxed);
+            st.orders_executed.store(v(2) as usize, std::sync::atomic::Ordering::Relaxed);
+            st.quantity_executed.store(v(3), std::sync::atomic::Ordering::Relaxed);
+            st.value_executed.store(v(4), std::sync::atomic::Ordering::Relaxed);
+            st.last_execution_time.store(v(5), std::sync::atomic::Ordering::Relaxed);
+            st.first_arrival_time.store(v(6), std::sync::atomic::Ordering::Relaxed);
+            st.sum_waiting_time.store(v(7), std::sync::atomic::Ordering::Relaxed);
+            cline(&mut out, &mut encs, "stats", stats_v(&st), Some(rt_text(&st, stats_v)), Some(rt_json(&st, stats_v)), Value::Null);
+        }
+        let sm = PriceLevelSnapshot { price: *b, visible_quantity: *b, hidden_quantity: *b, order_count: *b as usize, orders: vec![] };
+        cline(&mut out, &mut encs, "summ", summ_v(&sm), Some(rt_text(&sm, summ_v)), None, Value::Null);
+    }
     for i in 0..(5 * n.max(4)) {
         let id = ids(&mut rng);
         let x = match i % 5 {
